@@ -189,7 +189,7 @@ void judge(Ctx& ctx, const Case& c, bool from_replay) {
   clipper.AddSubject(S);
   clipper.AddClip(C);
   Paths64 sol;
-  arm_cpu_watchdog(kExecuteCpuSeconds);
+  arm_cpu_watchdog(c.geti("deepk") > 0 ? 12 * kExecuteCpuSeconds : kExecuteCpuSeconds);   // (deep-multiplicity scenes: see rnd_case)
   bool ok = clipper.Execute((ClipType)ct, (FillRule)fr, sol);
   arm_cpu_watchdog(0);
   ctx.evaluated();
@@ -325,10 +325,27 @@ void rnd_case(Ctx& ctx, uint64_t i) {
     rs.ox = ctx.rng.range(-kMaxCoord, kMaxCoord - rs.s * rs.G);
     rs.oy = ctx.rng.range(-kMaxCoord, kMaxCoord - rs.s * rs.G);
   }
+  // deep multiplicity (1 scene in 4000): one path handed over k times, k around 2^7, 2^8, 2^9, 2^10, so that edges of the
+  // other path type cross edges whose wind count passes 127/128, 255/256, ...
+  int deepk = 0;
+  if (i % 4000 == 137 && !rs.subj.empty() && !rs.clip.empty()) {
+    static const int ks[] = { 127, 128, 129, 255, 256, 257, 258, 300 };   // (512 copies take 30 s, 1024 minutes: left out)
+    deepk = ks[ctx.rng.irange(0, 7)];
+    Paths64& tgt = ctx.rng.chance(0.7) ? rs.subj : rs.clip;
+    Path64 rep = tgt[(size_t)ctx.rng.irange(0, (int)tgt.size() - 1)];
+    // (the sweep's cost grows like k^4..5 when a self-overlapping walk is repeated: 0.5 s at k = 128, minutes at 512; even
+    // plain rectangles take 0.9 s at 256 copies, 31 s at 512 - bounded, but not a workload for this check; beyond 129
+    // copies the repeated path is a plain rectangle)
+    if (deepk > 129 || ctx.rng.chance(0.3)) { int64_t a = ctx.rng.range(0, rs.G - 1), b = ctx.rng.range(a + 1, rs.G), e = ctx.rng.range(0, rs.G - 1), f = ctx.rng.range(e + 1, rs.G); rep = gen::box(a, e, b, f, ctx.rng.coin()); }
+    for (int k = 1; k < deepk; ++k) tgt.push_back(rep);
+    ctx.count("rnd_scenes_with_a_path_repeated_127_to_300_times");
+  }
   gen::scale_paths(rs.subj, rs.s, rs.ox, rs.oy);
   gen::scale_paths(rs.clip, rs.s, rs.ox, rs.oy);
   int cfg = (int)(i % 32);
+  if (deepk) cfg = (int)((i / 4000) % 32);
   Case c;
+  if (deepk) c.seti("deepk", deepk);
   c.p64["S"] = rs.subj; c.p64["C"] = rs.clip;
   c.seti("ct", 1 + (cfg & 3)); c.seti("fr", (cfg >> 2) & 3); c.seti("pc", (cfg >> 4) & 1);
   c.seti("s", rs.s); c.seti("G", rs.G); c.seti("bigoff", bigoff); c.set("mode", "rnd");
